@@ -37,4 +37,5 @@ D10a 98ec6e3 C10
 D10b f219ea7 C10
 D12 9318fcf C10
 D5 13833c8 C19
+D13 676de93 C18
 LIST
